@@ -1,11 +1,453 @@
 import GoguVerif.Go.Run
-/-! Driver wiring for C14 (stub — to be filled in). -/
+import GoguVerif.Spec.C14
+import GoguVerif.Model.C14
+/-!
+# Driver wiring for C14 (map helpers)
+
+One stateless call per protocol line (see `harness/k_c14_test.go` for the line formats).  Maps travel
+as `[[k,v],…]` sorted by key, so the association list the model receives is ONE iteration order (the
+sorted one).  Helpers whose answer is the same for every iteration order are compared exactly (after
+sorting by key).  For the helpers whose answer may depend on the order (`findkey`, `findbykey`,
+`mapkeys`, `invert`, `mapunique`) the comparison is existential: the implementation's answer must be
+the model's answer for SOME permutation of the entries (computed for ≤ 5 entries, otherwise only the
+monitor judges).  The monitor (`Spec.C14`) always judges the implementation's own answer.
+-/
 namespace GoguVerif.Kinds.C14
 open GoguVerif
+open GoguVerif.Model.C14 (Outcome GoMap)
+
+abbrev IMap := List (Int × Int)
+abbrev IMap2 := List (Int × IMap)
+
+/-! ## callback families (identical in the Go harness) -/
+
+def predP : String → Option (Int → Bool)
+  | "p0" => some fun x => x.tmod 2 == 0
+  | "p1" => some fun x => decide (x > 1)
+  | "p2" => some fun _ => true
+  | "p3" => some fun _ => false
+  | "p4" => some fun x => x == 2
+  | "p5" => some fun x => decide (x < 0)
+  | _ => none
+
+def funF : String → Option (Int → Int)
+  | "f0" => some fun x => x
+  | "f1" => some fun x => x.tmod 2
+  | "f2" => some fun x => x.tdiv 2
+  | "f3" => some fun _ => 0
+  | "f4" => some fun x => -x
+  | "f5" => some fun x => x * x
+  | _ => none
+
+def predQ : String → Option (Int → Int → Bool)
+  | "q0" => some fun k _ => k.tmod 2 == 0
+  | "q1" => some fun _ v => decide (v > 1)
+  | "q2" => some fun _ _ => true
+  | "q3" => some fun _ _ => false
+  | "q4" => some fun k v => k == v
+  | "q5" => some fun k v => decide (k < v)
+  | _ => none
+
+def funG : String → Option (Int → Int → Int)
+  | "g0" => some fun k _ => k
+  | "g1" => some fun k _ => k.tmod 2
+  | "g2" => some fun k _ => k.tdiv 2
+  | "g3" => some fun _ _ => 0
+  | "g4" => some fun k v => k + v
+  | "g5" => some fun _ v => v
+  | _ => none
+
+/-- predicates on a whole map; all independent of the order of the entries -/
+def predM : String → Option (IMap → Bool)
+  | "m0" => some fun m => decide (m.length ≥ 2)
+  | "m1" => some fun m => m.any (fun e => e.1 == 1)
+  | "m2" => some fun _ => true
+  | "m3" => some fun _ => false
+  | "m4" => some fun m => m.any (fun e => e.2 == 2)
+  | "m5" => some fun m => decide ((m.foldl (fun s e => s + e.2) 0) > 2)
+  | _ => none
+
+/-! ## parsing and rendering -/
+
+def pair? : Val → Option (Int × Int)
+  | .list [.int k, .int v] => some (k, v)
+  | _ => none
+
+/-- `nil` is the nil map: it behaves as the empty map in every helper -/
+def map? : Val → Option IMap
+  | .atom "nil" => some []
+  | .list l => l.mapM pair?
+  | _ => none
+
+def ints? : Val → Option (List Int)
+  | .atom "nil" => some []
+  | v => v.ints?
+
+def coll? : Val → Option (List IMap)
+  | .atom "nil" => some []
+  | .list l => l.mapM map?
+  | _ => none
+
+def entry2? : Val → Option (Int × IMap)
+  | .list [.int k, m] => (map? m).map fun m => (k, m)
+  | _ => none
+
+def map2? : Val → Option IMap2
+  | .atom "nil" => some []
+  | .list l => l.mapM entry2?
+  | _ => none
+
+def coll2? : Val → Option (List IMap2)
+  | .atom "nil" => some []
+  | .list l => l.mapM map2?
+  | _ => none
+
+def sortInts (l : List Int) : List Int := l.mergeSort (fun a b => decide (a ≤ b))
+
+/-- canonical form: sorted by key -/
+def canon {β : Type} (m : List (Int × β)) : List (Int × β) := m.mergeSort (fun a b => decide (a.1 ≤ b.1))
+
+def mapVal (m : IMap) : Val := .list ((canon m).map fun e => .list [.int e.1, .int e.2])
+def collVal (c : List IMap) : Val := .list (c.map mapVal)
+def map2Val (m : IMap2) : Val := .list ((canon m).map fun e => .list [.int e.1, mapVal e.2])
+def coll2Val (c : List IMap2) : Val := .list (c.map map2Val)
+
+def insertions {α : Type} (x : α) : List α → List (List α)
+  | [] => [[x]]
+  | y :: ys => (x :: y :: ys) :: (insertions x ys).map (y :: ·)
+
+def perms {α : Type} : List α → List (List α)
+  | [] => [[]]
+  | x :: xs => (perms xs).flatMap (insertions x)
+
+/-- Existential correspondence for an order-dependent helper: `f` is the model's (rendered) answer for
+one iteration order.  Second component: a tag saying how the implementation's answer was matched. -/
+def existsOrder (m : IMap) (f : IMap → List Val) (res : List Val) : Option (List Val) × List String :=
+  let a := f m
+  if a == res then (some a, [])
+  else if m.length > 5 then (none, ["order:monitor-only-over-5-entries"])
+  else if (perms m).any (fun m' => f m' == res) then (some res, ["order:answer-of-another-iteration-order"])
+  else (some a, [])
+
+def okTok (e : Bool) : Val := .atom (if e then "err" else "ok")
+
+def count (m : IMap) (p : Int × Int → Bool) : Nat := (m.filter p).length
+
+def specIf (ok : Bool) (clause : String) : Option String := if ok then none else some clause
+
+def mixed (m : IMap) (sel : Int × Int → Bool) : Bool := m.any sel && m.any (fun e => !sel e)
+
+open GoguVerif.Spec.C14 in
+open GoguVerif.Model.C14 in
+def step (st : Unit) (l : Line) : Step Unit :=
+  -- a panic is admitted only where the property says so: SliceToMap on unequal lengths
+  match l.res with
+  | [.atom "hang"] => { st := st, spec := some s!"terminates:{l.op}" }
+  | _ =>
+  let panicked := l.res == [.atom "panic"]
+  if panicked && l.op != "slicetomap" then { st := st, spec := some s!"no-panic:{l.op}", tags := [l.op] }
+  else
+  let bad : Step Unit := { st := st, bad := some s!"c14: bad line {l.op}" }
+  match l.op, l.args with
+  | "keys", [mv] =>
+    match map? mv, l.res with
+    | some m, [rv] =>
+      match rv.ints?, Keys m with
+      | some r, .ok ks =>
+        { st := st, model := some [Val.ofInts (sortInts ks)], tags := ["keys"], nontrivial := m.length ≥ 2
+          spec := specIf (decide (KeysSpec m r)) "keys:every-key-once" }
+      | some _, .panic => { st := st, model := some [.atom "panic"], tags := ["keys"] }
+      | _, _ => bad
+    | _, _ => bad
+  | "values", [mv] =>
+    match map? mv, l.res with
+    | some m, [rv] =>
+      match rv.ints?, Values m with
+      | some r, .ok vs =>
+        { st := st, model := some [Val.ofInts (sortInts vs)], tags := ["values"], nontrivial := m.length ≥ 2
+          spec := specIf (decide (ValuesSpec m r)) "values:every-value-once" }
+      | some _, .panic => { st := st, model := some [.atom "panic"], tags := ["values"] }
+      | _, _ => bad
+    | _, _ => bad
+  | "pick", [mv, kv] =>
+    match map? mv, ints? kv, l.res with
+    | some m, some ks, [rv, _] =>
+      match map? rv with
+      | some r =>
+        let (a, e) := Pick m ks
+        { st := st, model := some [mapVal a, okTok e]
+          tags := if e then ["pick", "pick:no-keys"] else ["pick"]
+          nontrivial := mixed m (fun x => ks.contains x.1)
+          spec := specIf (decide (PickSpec m ks r)) "pick:exactly-the-entries-with-listed-keys" }
+      | none => bad
+    | _, _, _ => bad
+  | "omit", [mv, kv] =>
+    match map? mv, ints? kv, l.res with
+    | some m, some ks, [rv] =>
+      match map? rv with
+      | some r =>
+        { st := st, model := some [mapVal (Omit m ks)], tags := ["omit"]
+          nontrivial := mixed m (fun x => ks.contains x.1)
+          spec := specIf (decide (OmitSpec m ks r)) "omit:exactly-the-other-entries" }
+      | none => bad
+    | _, _, _ => bad
+  | "pickomit", [mv, kv] =>
+    match map? mv, ints? kv, l.res with
+    | some m, some ks, [pv, ov] =>
+      match map? pv, map? ov with
+      | some p, some o =>
+        { st := st, model := some [mapVal (Pick m ks).1, mapVal (Omit m ks)], tags := ["pickomit"]
+          nontrivial := mixed m (fun x => ks.contains x.1)
+          spec := specIf (decide (PartitionSpec m p o)) "pick+omit:partition-the-map" }
+      | _, _ => bad
+    | _, _, _ => bad
+  | "pickby", [mv, .atom q] =>
+    match map? mv, predQ q, l.res with
+    | some m, some fn, [rv] =>
+      match map? rv with
+      | some r =>
+        { st := st, model := some [mapVal (PickBy m fn)], tags := ["pickby"]
+          nontrivial := mixed m (fun x => fn x.1 x.2)
+          spec := specIf (decide (PickBySpec m fn r)) "pickby:exactly-the-qualifying-entries" }
+      | none => bad
+    | _, _, _ => bad
+  | "omitby", [mv, .atom q] =>
+    match map? mv, predQ q, l.res with
+    | some m, some fn, [rv] =>
+      match map? rv with
+      | some r =>
+        { st := st, model := some [mapVal (OmitBy m fn)], tags := ["omitby"]
+          nontrivial := mixed m (fun x => fn x.1 x.2)
+          spec := specIf (decide (OmitBySpec m fn r)) "omitby:exactly-the-other-entries" }
+      | none => bad
+    | _, _, _ => bad
+  | "pickomitby", [mv, .atom q] =>
+    match map? mv, predQ q, l.res with
+    | some m, some fn, [pv, ov] =>
+      match map? pv, map? ov with
+      | some p, some o =>
+        { st := st, model := some [mapVal (PickBy m fn), mapVal (OmitBy m fn)], tags := ["pickomitby"]
+          nontrivial := mixed m (fun x => fn x.1 x.2)
+          spec := specIf (decide (PartitionSpec m p o)) "pickby+omitby:partition-the-map" }
+      | _, _ => bad
+    | _, _, _ => bad
+  | "filtermap", [mv, .atom p] =>
+    match map? mv, predP p, l.res with
+    | some m, some fn, [rv] =>
+      match map? rv with
+      | some r =>
+        { st := st, model := some [mapVal (FilterMap m fn)], tags := ["filtermap"]
+          nontrivial := mixed m (fun x => fn x.2)
+          spec := specIf (decide (FilterMapSpec m fn r)) "filtermap:exactly-the-qualifying-entries" }
+      | none => bad
+    | _, _, _ => bad
+  | "filteromit", [mv, .atom p] =>
+    match map? mv, predP p, l.res with
+    | some m, some fn, [pv, ov] =>
+      match map? pv, map? ov with
+      | some a, some o =>
+        { st := st, model := some [mapVal (FilterMap m fn), mapVal (OmitBy m (fun _ v => fn v))]
+          tags := ["filteromit"], nontrivial := mixed m (fun x => fn x.2)
+          spec := specIf (decide (PartitionSpec m a o)) "filtermap+omitby:partition-the-map" }
+      | _, _ => bad
+    | _, _, _ => bad
+  | "mapvalues", [mv, .atom f] =>
+    match map? mv, funF f, l.res with
+    | some m, some fn, [rv] =>
+      match map? rv with
+      | some r =>
+        { st := st, model := some [mapVal (MapValues m fn)], tags := ["mapvalues"]
+          nontrivial := m.length ≥ 2
+          spec := specIf (decide (MapValuesSpec m fn r)) "mapvalues:same-keys-transformed-values" }
+      | none => bad
+    | _, _, _ => bad
+  | "mapkeys", [mv, .atom g] =>
+    match map? mv, funG g, l.res with
+    | some m, some fn, [rv] =>
+      match map? rv with
+      | some r =>
+        let collide := decide ((m.map fun e => fn e.1 e.2).eraseDups.length < m.length)
+        let (mo, ot) := existsOrder m (fun m' => [mapVal (MapKeys m' fn)]) l.res
+        { st := st, model := mo
+          tags := ot ++ (if collide then ["mapkeys", "mapkeys:collision"] else ["mapkeys"])
+          nontrivial := m.length ≥ 2
+          spec := specIf (decide (MapKeysSpec m fn r)) "mapkeys:entries-are-images-all-images-present" }
+      | none => bad
+    | _, _, _ => bad
+  | "invert", [mv] =>
+    match map? mv, l.res with
+    | some m, [rv] =>
+      match map? rv with
+      | some r =>
+        let collide := decide ((m.map Prod.snd).eraseDups.length < m.length)
+        let f := fun (m' : IMap) => match Invert m' with
+          | .ok x => [mapVal x]
+          | .panic => [Val.atom "panic"]
+        let (mo, ot) := existsOrder m f l.res
+        { st := st, model := mo
+          tags := ot ++ (if collide then ["invert", "invert:collision"] else ["invert"])
+          nontrivial := m.length ≥ 2
+          spec := specIf (decide (InvertSpec m r)) "invert:every-value-maps-to-a-key-that-held-it" }
+      | none => bad
+    | _, _ => bad
+  | "find", [mv, .atom p] =>
+    match map? mv, predP p, l.res with
+    | some m, some fn, [rv] =>
+      match map? rv with
+      | some r =>
+        let mres := match Find m fn with
+          | .ok x => [mapVal x]
+          | .panic => [Val.atom "panic"]
+        let n := count m (fun e => fn e.2)
+        { st := st, model := some mres
+          tags := if n ≥ 2 then ["find", "find:several-qualify"] else ["find"]
+          nontrivial := n ≥ 2
+          spec := specIf (decide (FindSpec m fn r)) "find:qualifying-entry-with-smallest-key" }
+      | none => bad
+    | _, _, _ => bad
+  | "findkey", [mv, .atom p] =>
+    match map? mv, predP p, l.res with
+    | some m, some fn, [.int k] =>
+      let n := count m (fun e => fn e.2)
+      let (mo, ot) := existsOrder m (fun m' => [Val.int (FindKey fn m')]) l.res
+      { st := st, model := mo
+        tags := ot ++ (if n ≥ 2 then ["findkey", "findkey:several-qualify"] else ["findkey"])
+        nontrivial := n ≥ 2
+        spec := specIf (decide (FindKeySpec m fn k)) "findkey:key-of-a-qualifying-entry" }
+    | _, _, _ => bad
+  | "findbykey", [mv, .atom p] =>
+    match map? mv, predP p, l.res with
+    | some m, some fn, [rv] =>
+      match map? rv with
+      | some r =>
+        let n := count m (fun e => fn e.1)
+        let (mo, ot) := existsOrder m (fun m' => [mapVal (FindByKey fn m')]) l.res
+        { st := st, model := mo
+          tags := ot ++ (if n ≥ 2 then ["findbykey", "findbykey:several-qualify"] else ["findbykey"])
+          nontrivial := n ≥ 2
+          spec := specIf (decide (FindByKeySpec m fn r)) "findbykey:an-entry-whose-key-qualifies" }
+      | none => bad
+    | _, _, _ => bad
+  | "mapunique", [mv] =>
+    match map? mv, l.res with
+    | some m, [rv] =>
+      match map? rv with
+      | some r =>
+        let dup := decide ((m.map Prod.snd).eraseDups.length < m.length)
+        let (mo, ot) := existsOrder m (fun m' => [mapVal (MapUnique m')]) l.res
+        { st := st, model := mo
+          tags := ot ++ (if dup then ["mapunique", "mapunique:duplicates"] else ["mapunique"])
+          nontrivial := dup
+          spec := specIf (decide (MapUniqueSpec m r)) "mapunique:one-entry-per-distinct-value" }
+      | none => bad
+    | _, _ => bad
+  | "mapevery", [mv, .atom p] =>
+    match map? mv, predP p, l.res with
+    | some m, some fn, [rv] =>
+      match rv.bool? with
+      | some b =>
+        { st := st, model := some [Val.ofBool (MapEvery fn m)], tags := ["mapevery"]
+          nontrivial := mixed m (fun x => fn x.2)
+          spec := specIf (decide (EverySpec m fn b)) "mapevery:all-values" }
+      | none => bad
+    | _, _, _ => bad
+  | "mapsome", [mv, .atom p] =>
+    match map? mv, predP p, l.res with
+    | some m, some fn, [rv] =>
+      match rv.bool? with
+      | some b =>
+        { st := st, model := some [Val.ofBool (MapSome fn m)], tags := ["mapsome"]
+          nontrivial := mixed m (fun x => fn x.2)
+          spec := specIf (decide (SomeSpec m fn b)) "mapsome:some-value" }
+      | none => bad
+    | _, _, _ => bad
+  | "mapcontains", [mv, .int x] =>
+    match map? mv, l.res with
+    | some m, [rv] =>
+      match rv.bool? with
+      | some b =>
+        { st := st, model := some [Val.ofBool (MapContains x m)], tags := ["mapcontains"]
+          nontrivial := mixed m (fun e => e.2 == x)
+          spec := specIf (decide (ContainsSpec m x b)) "mapcontains:value-present" }
+      | none => bad
+    | _, _ => bad
+  | "pluck", [cv, .int key] =>
+    match coll? cv, l.res with
+    | some c, [rv] =>
+      match rv.ints? with
+      | some r =>
+        let has := c.any (fun m => m.any (fun e => e.1 == key))
+        let lacks := c.any (fun m => !(m.any (fun e => e.1 == key)))
+        { st := st, model := some [Val.ofInts (Pluck c key)], tags := ["pluck"]
+          nontrivial := has && lacks
+          spec := specIf (decide (PluckSpec c key r)) "pluck:value-from-each-map-that-has-the-key-in-order" }
+      | none => bad
+    | _, _ => bad
+  | "slicetomap", [kv, vv] =>
+    match ints? kv, ints? vv with
+    | some s1, some s2 =>
+      let out : Option (Option IMap) :=
+        if panicked then some none
+        else match l.res with
+          | [rv] => (map? rv).map some
+          | _ => none
+      match out with
+      | none => bad
+      | some out =>
+        let mres := match SliceToMap s1 s2 with
+          | .ok x => [mapVal x]
+          | .panic => [Val.atom "panic"]
+        let dupKeys := decide (s1.eraseDups.length < s1.length)
+        { st := st, model := some mres
+          tags := if s1.length ≠ s2.length then ["slicetomap", "slicetomap:unequal-lengths"]
+                  else if dupKeys then ["slicetomap", "slicetomap:repeated-key"] else ["slicetomap"]
+          nontrivial := s1.length ≠ s2.length || dupKeys
+          spec := specIf (sliceToMapCheck s1 s2 out)
+            (if s1.length ≠ s2.length then "slicetomap:rejects-unequal-lengths" else "slicetomap:pairs-positions-last-wins") }
+    | _, _ => bad
+  | "filtermapcoll", [cv, .atom p] =>
+    match coll? cv, predP p, l.res with
+    | some c, some fn, [rv] =>
+      match coll? rv with
+      | some r =>
+        let multi := c.any (fun m => count m (fun e => fn e.2) ≥ 2)
+        { st := st, model := some [collVal (FilterMapCollection c fn)]
+          tags := if multi then ["filtermapcoll", "filtermapcoll:map-with-several-qualifying-values"] else ["filtermapcoll"]
+          nontrivial := multi
+          spec := specIf (decide (FilterCollSpec (c.map canon) fn r)) "filtermapcoll:each-qualifying-map-once-in-order" }
+      | none => bad
+    | _, _, _ => bad
+  | "filter2d", [cv, .atom p] =>
+    match coll2? cv, predM p, l.res with
+    | some c, some fn, [rv] =>
+      match coll2? rv with
+      | some r =>
+        let multi := c.any (fun m => (m.filter (fun e => fn e.2)).length ≥ 2)
+        let cc := c.map (fun m => canon (m.map fun e => (e.1, canon e.2)))
+        { st := st, model := some [coll2Val (Filter2DMapCollection c fn)]
+          tags := if multi then ["filter2d", "filter2d:map-with-several-qualifying-values"] else ["filter2d"]
+          nontrivial := multi
+          spec := specIf (decide (FilterCollSpec cc fn r)) "filter2d:each-qualifying-map-once-in-order" }
+      | none => bad
+    | _, _, _ => bad
+  | "partitionmap", [cv, .atom p] =>
+    match coll? cv, predM p, l.res with
+    | some c, some fn, [av, bv] =>
+      match coll? av, coll? bv with
+      | some a, some b =>
+        let res := PartitionMap c fn
+        let hasEmpty := c.any (·.isEmpty)
+        { st := st, model := some [collVal res.1, collVal res.2]
+          tags := if hasEmpty then ["partitionmap", "partitionmap:empty-map-skipped"] else ["partitionmap"]
+          nontrivial := !a.isEmpty && !b.isEmpty
+          spec := specIf (decide (PartitionMapSpec (c.map canon) fn (a, b))) "partitionmap:non-empty-maps-routed-by-predicate-in-order" }
+      | _, _ => bad
+    | _, _, _ => bad
+  | _, _ => bad
 
 def kind : Kind where
   σ := Unit
   init := fun _ => some ()
-  step := fun st l => { st := st, bad := some s!"C14: kind not implemented ({l.op})" }
+  step := step
 
 end GoguVerif.Kinds.C14
